@@ -60,6 +60,7 @@ const (
 	GRedelIntoUnclaim = "g:redelegate_into_a_position_with_indexed_but_unclaimed_rewards"
 	GShareFraction    = "g:withdraw_all_but_a_fraction_of_a_share_after_value_was_concentrated"
 	GMultiUnbondSlash = "g:several_delegators_undelegate_from_one_validator_then_it_is_slashed"
+	GDeletePending    = "g:asset_drained_and_deleted_while_its_unbondings_are_pending_then_slash"
 )
 
 const (
@@ -74,7 +75,7 @@ func baseProfile() Profile {
 		Weights: map[string]int{
 			KDelegate: 22, KUndelegate: 14, KRedelegate: 10, KClaim: 6, KBlock: 22, KSlashHook: 3, KSlash: 4,
 			KDonate: 2, KNatDel: 2, KNatUndel: 2, KJail: 1, KUnjail: 1, KUpdate: 2, KUnbTime: 1, KCreate: 1, KDelete: 1,
-			GDrainAsset: 2, GShareFraction: 2, KReimport: 2,
+			GDrainAsset: 2, GShareFraction: 2, KReimport: 2, GRedelThenExit: 2,
 		},
 		MinSteps: 4, MaxSteps: 40,
 		UnbTimes:   []int64{ns, sec, 3600 * sec, 21 * day},
@@ -624,8 +625,10 @@ func (g *Gen) Step() {
 		s2 := x.Post()
 		if ld, ok := s2.FindDel(d.D, leave, d.Denom); ok {
 			amt := s2.Reported(ld)
-			if g.pct("partial-exit", 35) {
-				amt = new(big.Int).Quo(amt, big.NewInt(2))
+			if g.pct("partial-exit", 45) {
+				// leave a half, a tenth or a hundredth behind
+				keep := []int64{2, 2, 10, 100}[g.intn("keep-div", 4)]
+				amt = new(big.Int).Sub(amt, new(big.Int).Quo(amt, big.NewInt(keep)))
 			}
 			if amt.Sign() > 0 {
 				if g.pct("exit-by-redelegate", 15) {
@@ -651,32 +654,18 @@ func (g *Gen) Step() {
 			return
 		}
 		dn := ds[g.intn("drain-denom", len(ds))]
-		for i := 0; i < 12; i++ {
-			cur := x.Post()
-			var pos []DelSnap
-			for _, d := range cur.Dels {
-				if d.Denom == dn && d.D >= 0 && d.D != 100 && d.V >= 0 {
-					pos = append(pos, d)
-				}
-			}
-			if len(pos) == 0 {
-				break
-			}
-			d := pos[0]
-			bal := cur.Reported(d)
-			if bal.Sign() <= 0 {
-				break
-			}
-			r := x.Apply(Op{K: KUndelegate, D: d.D, V: d.V, Denom: d.Denom, Amt: bal.String()})
-			if !r.OK {
-				// try one unit less once (the reported balance is not always withdrawable)
-				if bal.Cmp(big.NewInt(1)) > 0 {
-					r = x.Apply(Op{K: KUndelegate, D: d.D, V: d.V, Denom: d.Denom, Amt: new(big.Int).Sub(bal, big.NewInt(1)).String()})
-				}
-				if !r.OK {
+		g.drain(dn)
+		// re-entry: somebody delegates the drained asset again, preferably to a validator on which a
+		// worthless position stayed behind
+		if g.pct("drain-reenter", 60) {
+			v := g.intn("v", nv)
+			for _, d := range x.Post().Dels {
+				if d.Denom == dn && d.V >= 0 && g.pct("reenter-stale", 70) {
+					v = d.V
 					break
 				}
 			}
+			x.Apply(Op{K: KDelegate, D: g.del(), V: v, Denom: dn, Amt: g.freshAmount("amt")})
 		}
 	case GPackBucket:
 		// one delegator undelegates 2-3 times within one block, from the same or from other
@@ -746,25 +735,74 @@ func (g *Gen) Step() {
 			p := new(big.Int).Quo(x.Post().Vals[a].Tokens.BigInt(), big.NewInt(1_000_000)).Int64()
 			x.Apply(Op{K: KSlash, V: a, Frac: g.frac(), Power: p, Age: int64(g.intn("age", 2))})
 		}
+	case GDeletePending:
+		// everybody leaves an asset, governance deletes it while the unbondings are still pending,
+		// a validator they came from is slashed, then the entries mature
+		ds := g.assetDenoms()
+		if len(ds) == 0 {
+			return
+		}
+		dn := ds[g.intn("dp-denom", len(ds))]
+		if len(x.Post().DelsOfAsset(dn)) == 0 {
+			x.Apply(Op{K: KDelegate, D: g.del(), V: g.intn("v", nv), Denom: dn, Amt: g.freshAmount("amt")})
+			if g.pct("dp-second", 50) {
+				x.Apply(Op{K: KDelegate, D: g.del(), V: g.intn("v", nv), Denom: dn, Amt: g.freshAmount("amt")})
+			}
+		}
+		g.drain(dn)
+		x.Apply(Op{K: KDelete, Denom: dn, Signer: "auth", Legacy: g.pct("legacy", 15)})
+		if g.pct("dp-block", 30) {
+			x.Apply(Op{K: KBlock, Dt: sec, Fees: g.fees()})
+		}
+		cur := x.Post()
+		v := g.slashTarget(cur)
+		for _, b := range cur.Unb {
+			for _, e := range b.Entries {
+				if e.Denom == dn && e.V >= 0 && g.pct("dp-target", 60) {
+					v = e.V
+				}
+			}
+		}
+		if g.pct("hook", 60) {
+			x.Apply(Op{K: KSlashHook, V: v, Frac: g.frac()})
+		} else {
+			p := new(big.Int).Quo(cur.Vals[v].Tokens.BigInt(), big.NewInt(1_000_000)).Int64()
+			x.Apply(Op{K: KSlash, V: v, Frac: g.frac(), Power: p, Age: int64(g.intn("age", 2))})
+		}
+		if g.pct("dp-recreate", 25) {
+			x.Apply(g.createOp(dn, "auth"))
+		}
+		x.Apply(Op{K: KBlock, Dt: int64(x.Post().UnbondingTime) + 1, Fees: g.fees()})
+		x.Apply(Op{K: KBlock, Dt: sec})
 	case GMultiUnbondSlash:
 		// several delegators (and one delegator in two different blocks) undelegate from validator a:
 		// several distinct unbonding buckets point at a; then a is slashed
-		dn := g.anyDenom("denom")
+		dns := []string{g.anyDenom("denom")}
+		if ds := g.assetDenoms(); len(ds) >= 2 && g.pct("mu-two-denoms", 50) {
+			// every delegator undelegates two denominations: the per-validator index then interleaves
+			// the delegators (validator | time | denom | delegator)
+			dns = []string{ds[0], ds[1]}
+		}
 		a := g.intn("mu-a", nv)
 		k := 2 + g.intn("mu-k", 3)
+		blocks := g.pct("mu-blocks-between", 40)
 		for d := 0; d < k && d < NumDels; d++ {
-			cur := x.Post()
-			if _, ok := cur.FindDel(d, a, dn); !ok {
-				x.Apply(Op{K: KDelegate, D: d, V: a, Denom: dn, Amt: g.freshAmount("amt")})
-			}
-			cur = x.Post()
-			if pos, ok := cur.FindDel(d, a, dn); ok {
-				bal := cur.Reported(pos)
-				if bal.Cmp(big.NewInt(3)) > 0 {
-					x.Apply(Op{K: KUndelegate, D: d, V: a, Denom: dn, Amt: new(big.Int).Quo(bal, big.NewInt(int64(2+g.intn("mu-div", 3)))).String()})
+			for _, dn := range dns {
+				cur := x.Post()
+				if _, ok := cur.FindDel(d, a, dn); !ok {
+					x.Apply(Op{K: KDelegate, D: d, V: a, Denom: dn, Amt: g.freshAmount("amt")})
 				}
 			}
-			if g.pct("mu-block-between", 30) {
+			for _, dn := range dns {
+				cur := x.Post()
+				if pos, ok := cur.FindDel(d, a, dn); ok {
+					bal := cur.Reported(pos)
+					if bal.Cmp(big.NewInt(3)) > 0 {
+						x.Apply(Op{K: KUndelegate, D: d, V: a, Denom: dn, Amt: new(big.Int).Quo(bal, big.NewInt(int64(2+g.intn("mu-div", 3)))).String()})
+					}
+				}
+			}
+			if blocks && g.pct("mu-block-between", 50) {
 				x.Apply(Op{K: KBlock, Dt: sec, Fees: g.fees()})
 			}
 		}
@@ -1078,6 +1116,41 @@ func (g *Gen) Step() {
 		x.Apply(Op{K: KValCreate, V: v, Amt: new(big.Int).Mul(big.NewInt(int64(g.intn("m", 9)+1)), pow10(5+g.intn("k", 3))).String(), Frac: g.pickS("commission", []string{"0", "0.1", "1"})})
 	default:
 		panic("gen: unknown kind " + kind)
+	}
+}
+
+// drain: every position of asset dn undelegates its full reported balance (worthless positions
+// stay behind).
+func (g *Gen) drain(dn string) {
+	x := g.x
+	skip := map[string]bool{}
+	for i := 0; i < 14; i++ {
+		cur := x.Post()
+		var pos []DelSnap
+		for _, d := range cur.Dels {
+			if d.Denom == dn && d.D >= 0 && d.D != 100 && d.V >= 0 && !skip[d.Key()] {
+				pos = append(pos, d)
+			}
+		}
+		if len(pos) == 0 {
+			break
+		}
+		d := pos[0]
+		bal := cur.Reported(d)
+		if bal.Sign() <= 0 {
+			skip[d.Key()] = true // a worthless position (its validator was slashed away) stays behind
+			continue
+		}
+		r := x.Apply(Op{K: KUndelegate, D: d.D, V: d.V, Denom: d.Denom, Amt: bal.String()})
+		if !r.OK {
+			// try one unit less once (the reported balance is not always withdrawable)
+			if bal.Cmp(big.NewInt(1)) > 0 {
+				r = x.Apply(Op{K: KUndelegate, D: d.D, V: d.V, Denom: d.Denom, Amt: new(big.Int).Sub(bal, big.NewInt(1)).String()})
+			}
+			if !r.OK {
+				skip[d.Key()] = true
+			}
+		}
 	}
 }
 
